@@ -31,6 +31,8 @@ Inputs == {
   D1(<<1, 2>>, <<5000001, 10000000>>),                                               \* total 1 + 1e-7: not normalised, must be rescaled
   D2(<<1, 4>>, <<1, 4>>, <<1, 4>>, <<1, 4>>), D2(R(1), R(2), R(3), R(0)), D2(<<1, 8>>, <<3, 8>>, <<1, 2>>, R(0)),
   (<<0, 2>> :> R(1)) @@ (<<2, 1>> :> R(1)) @@ (<<1, 1>> :> R(2)),                  \* non-bit outcomes
+  \* three qubits, no symmetry under any permutation of them: the six orders of the full list and the orders of its sublists all differ
+  (<<0, 0, 1>> :> <<1, 2>>) @@ (<<0, 1, 0>> :> <<3, 10>>) @@ (<<0, 1, 1>> :> <<1, 5>>),
   (<<0, 1>> :> <<1, 2>>) @@ (<<1, 0>> :> <<1, 2>>),                                 \* missing keys
   D1(R(0), R(0)),                                                                    \* all-zero: cannot be normalised
   D1(R(-1), R(2)),                                                                   \* negative weight
